@@ -20,8 +20,45 @@ def tweak(rng, sc):
     return sc
 
 
+def run_refresh_family(ctx, depth):
+    """stale cached set: the status write conflicts, the set informer catches up before the retry (the model keeps the
+    cache fixed during a reconcile, so this family is decided by the monitor on the implementation only)"""
+    import copy
+    from props import gen
+    n = 120 if depth == "quick" else 2000
+    scs = []
+    while len(scs) < n:
+        sc = gen.gen_rollout(ctx.rng) if ctx.rng.random() < 0.6 else gen.gen_snapshot(ctx.rng)
+        if not sc["api"].get("set") or not sc["cache"].get("set"):
+            continue
+        a = sc["api"]["set"]
+        a["gen"] = sc["cache"]["set"]["gen"] + ctx.rng.choice([1, 1, 2])
+        a["rv"] = sc["cache"]["set"]["rv"] + ctx.rng.choice([1, 3])
+        if ctx.rng.random() < 0.5:
+            a["tmpl"] = 3 if a["tmpl"] != 3 else 1
+        sc["ops"] = [{"op": "reconcile", "refresh_on_conflict": True}]
+        scs.append(sc)
+    outs = core.run_harness_parallel("reconcile", scs, shards=16)
+    hit = 0
+    for sc, out in zip(scs, outs):
+        obs = out["steps"][0]
+        ctx.evaluations += 1
+        ctx.count("family:status-refresh")
+        sn = monitors.Snap(sc, obs)
+        sn.final = out.get("final")
+        if any(c["verb"] == "update" and c["res"] == "statefulsets" and c.get("err") == "conflict" for c in obs["calls"]):
+            hit += 1
+            ctx.nontriv([sc["api"], sc["cache"]])
+        bad = monitors.mon_c12(sn) if sn.ok else []
+        if bad:
+            ctx.violations.append({"family": "C12/status-refresh", "input": sc, "observed": obs, "clauses": bad,
+                                   "signature": {"kind": "C12", "clause": bad[0][:40]}})
+    ctx.families["C12/status-refresh"] = {"cases": n, "with_conflict_then_refresh": hit, "tie": "monitor only (cache refresh between retry attempts is not in the model)"}
+
+
 def run(ctx, depth):
     rc.run_reconcile_property(ctx, depth, "C12", PI, monitor, tweak=tweak)
+    run_refresh_family(ctx, depth)
 
 
 def search(ctx):
